@@ -160,13 +160,13 @@ def Sw.install (x : Sw) : Sw :=
   if x.isApp ∧ x.op = .closed then { x with op := .installing, auxCd := some x.auxDur } else x
 
 /-- The requests of a service / application that this model covers. -/
-inductive SwReq | scan | fix | compromise | stop | start | pause | resume | restart | disable | enable | close
+inductive SwReq | scan | fix | compromise | stop | start | pause | resume | restart | disable | enable | close | execute
 deriving DecidableEq, Repr
 
 /-- Is the request name registered in the item's request manager? (else `unreachable`) -/
 def SwReq.known (isApp : Bool) : SwReq → Bool
   | .scan | .fix | .compromise => true
-  | .close => isApp
+  | .close | .execute => isApp
   | _ => !isApp
 
 /-- The `_StateValidator` attached to the request (none = AllowAll). -/
@@ -176,7 +176,7 @@ def SwReq.guard (r : SwReq) : Option OpSt :=
   | .start => some .stopped
   | .resume => some .paused
   | .enable => some .disabled
-  | .compromise | .disable => none
+  | .compromise | .disable | .execute => none
 
 def SwReq.allowed (r : SwReq) (x : Sw) : Bool :=
   match r.guard with
@@ -197,6 +197,10 @@ def Sw.handle (x : Sw) : SwReq → Sw × Bool
   | .disable => ({ x with op := .disabled }, true)
   | .enable => if x.op = .disabled then ({ x with op := .stopped }, true) else (x, false)
   | .close => ((if x.op = .running then { x with op := .closed } else x), true)
+  -- generic `execute` of Application (f9dc034): `self.run()`, then answer whether the application is RUNNING
+  | .execute =>
+    let y := if x.op = .closed then { x.wake with op := .running } else x
+    (y, y.op = .running)
 
 /-- Does the request addressed to `(isApp, name)` reach and pass the validators of item `x`? -/
 def Sw.accepts (x : Sw) (isApp : Bool) (name : String) (r : SwReq) : Bool :=
